@@ -136,12 +136,19 @@ def run(ctx):
     with Workdir():
         for nocursor, localcursor, noresize, inc in itertools.product([False, True], repeat=4):
             for fc in (True, False):
-                v = Vncdo(["key", "A", "key", "a", "type", "Hi!"], force_caps=fc, nocursor=nocursor, localcursor=localcursor, no_desktop_resize=noresize, incremental=inc)
+                # ... and with a --delay between commands (then the script runs on timers: fire them all)
+                delay_ms = 10 if (nocursor, localcursor, noresize, inc) in ((False, False, False, False), (True, False, True, False), (False, True, False, True)) else 0
+                v = Vncdo(["key", "A", "key", "a", "type", "Hi!"], delay=delay_ms, force_caps=fc, nocursor=nocursor, localcursor=localcursor, no_desktop_resize=noresize, incremental=inc)
                 try:
                     if v.factory is None:
                         continue
                     v.connect()
                     tk = v.feed(b"RFB 003.008\n" + bytes([1, 1]) + struct.pack("!I", 0) + server_init(4, 4, vclient.RGB32, b"x"))
+                    guard = 0
+                    while v.reactor.getDelayedCalls() and v.reactor.stopped_at is None and guard < 200:
+                        guard += 1
+                        tk = tk + v.fire()[1]
+                    ctx.count("cli_force_caps_with_delay" if delay_ms else "cli_force_caps_without_delay")
                     ws = [bytes.fromhex(t[2:]) for t in tk if t.startswith("w:")]
                     keys_ = [(struct.unpack("!BBxxI", w_)[1], struct.unpack("!BBxxI", w_)[2]) for w_ in ws if len(w_) == 8 and w_[0] == 4]
                     sh = 0xFFE1
@@ -153,7 +160,7 @@ def run(ctx):
                     ctx.case(None, key=("cli-fc", fc, nocursor, localcursor, noresize, inc))
                     if keys_ != want:
                         ctx.violate("key-events-cli-force-caps", {"input": {"command_line": "vncdo" + (" --force-caps" if fc else "") + (" --nocursor" if nocursor else "") + (" --localcursor" if localcursor else "") +
-                                                                            (" --disable-desktop-resizing" if noresize else "") + (" -i" if inc else "") + " key A key a type Hi!"},
+                                                                            (" --disable-desktop-resizing" if noresize else "") + (" -i" if inc else "") + (" --delay %d" % delay_ms if delay_ms else "") + " key A key a type Hi!"},
                                                                   "impl": repr(keys_), "spec": repr(want),
                                                                   "how": "the real vncdo() entry point with an in-memory transport; (down, keysym) of every KeyEvent written"})
                 finally:
